@@ -10,4 +10,33 @@ PROPS = {
   ],
   "assumptions": ["NoCollision strong old new bs", "0 < bs", "bs ≤ chunk for the streaming generator (consts_ok_chunk)"],
  },
+ "C07": {
+  "seed": 7,
+  "streams": [{"kind": "py", "name": "engine-c07", "module": "engine_stream", "kwargs": {"focus": "C07"}}],
+  "trusted_base": [
+    "hand-written Lean model of SyncEngine::sync (src/sync/mod.rs), planner and executors at directory-entry level, tied to the real `sy` binary by the engine stream (exit status, counters, event multiset, final destination snapshot compared per case)",
+    "tools/extract_consts.py (default --delete-threshold regenerated from src/cli.rs each run)",
+    "f64 division/multiplication do not flip a strict inequality in the guard's range (exact rational model with an explicit tie bit; boundary cases generated at, below and above the threshold)",
+  ],
+  "assumptions": ["the guard's destination count comes from a successful scan of the destination", "exact-arithmetic model of the f64 percentage with an explicit tie bit"],
+ },
+ "C08": {
+  "seed": 8,
+  "streams": [{"kind": "py", "name": "engine-c08", "module": "engine_stream", "kwargs": {"focus": "C08"}}],
+  "trusted_base": [
+    "hand-written Lean model of the one-way engine tied to the real binary by twin runs (same command with and without --dry-run) compared with the model and with each other",
+    "what happens around the engine in main.rs (clean-state, clear-cache, checksum DB, resume, bisync DB) is covered by the snapshot oracle over the destination and a private HOME/XDG tree, not by the model",
+  ],
+  "assumptions": ["plan equality is stated for real runs in which no task fails"],
+ },
+ "C19": {
+  "seed": 19,
+  "streams": [{"kind": "py", "name": "engine-c19", "module": "engine_stream", "kwargs": {"focus": "C19"}}],
+  "trusted_base": [
+    "hand-written Lean model of the engine's bookkeeping (counters, events, errors) tied to the real `sy --json` output by the engine stream",
+    "tools/extract_consts.py: log sink and error-event emission regenerated from src/main.rs / src/sync/mod.rs each run",
+    "serde_json prints one object per line (every stdout line is parsed with a strict JSON parser each run)",
+  ],
+  "assumptions": ["events are compared with the file-system diff of the destination before/after the run"],
+ },
 }
